@@ -44,6 +44,32 @@ Fixpoint lin_run (t : tbl) (l : list (mop * res)) : option tbl :=
 Definition linearizable (pre : tbl) (l : list (mop * res)) (post : tbl) : bool :=
   existsb (fun order => match lin_run pre order with Some t => book_eqb t post | None => false end) (perms l).
 
+(* larger bursts: search for an order instead of trying them all.  A refused operation leaves the table as it was, so an
+   operation that was refused and that the model refuses in the current state can be placed right here without loss of
+   generality; only the accepted operations branch.  (Fuel 2n+2 is never exhausted: every call removes an operation.) *)
+Definition is_err (r : res) : bool := match r with Err => true | Ok => false end.
+Fixpoint picks {A} (l : list A) : list (A * list A) :=
+  match l with
+  | [] => []
+  | x :: t => (x, t) :: map (fun p => (fst p, x :: snd p)) (picks t)
+  end.
+Fixpoint lin_dfs (fuel : nat) (t : tbl) (rem : list (mop * res)) (post : tbl) : bool :=
+  match fuel with
+  | O => true
+  | S f =>
+      let rem' := filter (fun x => negb (is_err (snd x) && is_err (fst (mstep t (fst x))))) rem in
+      if (length rem' <? length rem)%nat then lin_dfs f t rem' post
+      else match rem with
+           | [] => book_eqb t post
+           | _ => existsb (fun p => match snd (fst p) with
+                                    | Err => false
+                                    | Ok => let '(r', t') := mstep t (fst (fst p)) in
+                                            if is_err r' then false else lin_dfs f t' (snd p) post
+                                    end) (picks rem)
+           end
+  end.
+Definition accepted_n (l : list (mop * res)) : nat := length (filter (fun x => negb (is_err (snd x))) l).
+
 Definition joins_of (o : mop) : list nat :=
   match o with MReserve j _ => [jp_id j] | MUpdate js _ _ => map jp_id js | _ => [] end.
 Definition leaves_of (o : mop) : list nat := match o with MLeave ids => ids | MUpdate _ _ ls => ls | _ => [] end.
@@ -84,6 +110,8 @@ Definition members_diag (pre : tbl) (ops : list mop) (rs : list res) (post : tbl
   else if negb (accounting_ok pre (combine ops rs) post) then 2%nat
   else if negb (bank_ok pre (combine ops rs) post) then 5%nat
   else if (length ops <=? 6)%nat then (if linearizable pre (combine ops rs) post then 0%nat else 3%nat)   (* lazily: only small bursts *)
+  else if (accepted_n (combine ops rs) <=? 7)%nat
+       then (if lin_dfs (2 * length ops + 2) pre (combine ops rs) post then 0%nat else 3%nat)
   else 0%nat.
 
 (* ---------- seat manager ---------- *)
